@@ -188,16 +188,21 @@ def execute(st):
                 nonlocal_contrib = True
             if not (0 < xc < 1 - ref_conv.EPS_BORDER):
                 continue  # empty domain: contributes exactly 0 (documented)
+            # kernels with a partonic threshold have a kink/step in z there: tell the reference quadrature
+            xb = ()
+            if hasattr(cfe.coeff, "is_below_pair_threshold"):
+                zt = st["Q2"] / (st["Q2"] + 4.0 * float(cfe.coeff.m2hq))
+                xb = (zt, zt * (1 - 1e-9), zt * (1 - 1e-4), zt * (1 - 1e-2))
             for j in range(n):
                 sup = basis.support(j)
                 if xc >= sup[1]:
                     continue
-                v, e = ref_conv.convolve(rsl.reg, rsl.args["reg"], rsl.sing, rsl.args["sing"], delta, lambda y, j=j: basis.p(j, y), xc, sup, basis.x)
+                v, e = ref_conv.convolve(rsl.reg, rsl.args["reg"], rsl.sing, rsl.args["sing"], delta, lambda y, j=j: basis.p(j, y), xc, sup, basis.x, extra_breaks=xb)
                 pred[o][:, j] += w * xc * v
                 scale[o][:, j] += np.abs(w) * xc * abs(v)
                 rerr[o][:, j] += np.abs(w) * xc * e
             # span oracle: direct convolution with the exactly representable function (no basis involved)
-            v, e = ref_conv.convolve(rsl.reg, rsl.args["reg"], rsl.sing, rsl.args["sing"], delta, lambda y: _poly(basis, y), xc, (basis.x[0], basis.x[-1]), [basis.x[0], basis.x[-1]])
+            v, e = ref_conv.convolve(rsl.reg, rsl.args["reg"], rsl.sing, rsl.args["sing"], delta, lambda y: _poly(basis, y), xc, (basis.x[0], basis.x[-1]), [basis.x[0], basis.x[-1]], extra_breaks=xb)
             span_pred[o] += w * xc * v
             span_scale[o] += np.abs(w) * xc * abs(v)
     viol = []
